@@ -1044,6 +1044,11 @@ class RTCSctpTransport(AsyncIOEventEmitter):
             self._ssthresh = chunk.advertised_rwnd
             self._get_extensions(chunk.params)
 
+            # forget what was received from a previous association
+            self._inbound_streams = {}
+            self._sack_duplicates = []
+            self._sack_misordered = set()
+
             self.__log_debug(
                 "- Peer supports %d outbound streams, %d max inbound streams",
                 chunk.outbound_streams,
